@@ -177,6 +177,23 @@ pub fn check(rep: &mut Report) {
             cases.push((format!("(40.5 * mebi{la})"), format!("(0.1 * {ub})")));
         }
     }
+    // every ordered pair of prefixes on the same unit: all metric prefixes on metre and second, all
+    // metric and binary prefixes on bit and byte (the operands differ only by their prefix)
+    {
+        let table = numbat::verif::prefix_table();
+        let metric: Vec<String> = std::iter::once(String::new()).chain(table.iter().filter(|(_, _, k, _)| *k == 'M').map(|(l, _, _, _)| l.to_string())).collect();
+        let mut both = metric.clone();
+        both.extend(table.iter().filter(|(_, _, k, _)| *k == 'B').map(|(l, _, _, _)| l.to_string()));
+        for (unit, prefixes) in [("metre", &metric), ("second", &metric), ("bit", &both), ("byte", &both)] {
+            for p1 in prefixes.iter() {
+                for p2 in prefixes.iter() {
+                    if p1 != p2 {
+                        cases.push((format!("(1 * {p1}{unit})"), format!("(2.5 * {p2}{unit})")));
+                    }
+                }
+            }
+        }
+    }
     let n = cases.len();
     let outs: Vec<(Result<Obs, String>, Result<bool, String>)> = par_map(
         n,
@@ -346,7 +363,7 @@ pub fn check(rep: &mut Report) {
     rep.set("unit_pairs", json!(pairs.len()));
     rep.set("magnitude_pairs", json!(mag_pairs.len()));
     rep.set("unit_triples", json!(triples.len()));
-    rep.rule = "every ordered pair of same-dimension prelude units x magnitude pairs (quick: diagonal + 7 cross pairs; thorough: M8xM8 + the extreme magnitudes 5e-324, 1e-310, f64::MAX, 2^53+1 with themselves and with 1) + prefixed operands; a+b, b+a, a-b, -(b-a) evaluated by the interpreter, raw values read through the hook and displayed text through print; plus all 6 orders of three-operand sums over per-dimension unit subsets; non-trivial = cases where the display clause applies (unit sizes differ, not both zero) and all triples".into();
+    rep.rule = "every ordered pair of same-dimension prelude units x magnitude pairs (quick: diagonal + 7 cross pairs; thorough: M8xM8 + the extreme magnitudes 5e-324, 1e-310, f64::MAX, 2^53+1 with themselves and with 1) + prefixed operands + every ordered pair of prefixes on metre, second (metric) and bit, byte (metric and binary); a+b, b+a, a-b, -(b-a) evaluated by the interpreter, raw values read through the hook and displayed text through print; plus all 6 orders of three-operand sums over per-dimension unit subsets; non-trivial = cases where the display clause applies (unit sizes differ, not both zero) and all triples".into();
     rep.assumptions = vec![
         "reference base factors come from UnitDefs (direct definitions, independent recursion)".into(),
         "physical equality tolerance 1e-9 relative to |a|+|b| in base units".into(),
